@@ -237,8 +237,9 @@ LINKS = {("x", "y"): ["UGT(x, ZeroExt(1, y))", "ULT(x, ZeroExt(1, y))", "x != Ze
 #  solution{e,v,extra}  is_true/is_false{e,extra}  simplify  downsize  branch (creates solver index len(solvers))
 
 def gen_history(rng, length, calpha=CONSTRAINTS, ealpha=EXPRS, balpha=BOOLS, uni=None, max_solvers=4,
-                weights=None, threads=0, replace=0.0, replace_any=False, symv=0.0, first_eq=0.0, contra=0.0, prefix=None):
-    """symv: share of solution() calls whose value is itself a symbolic expression (of the width of `e`);
+                weights=None, threads=0, replace=0.0, replace_any=False, symv=0.0, first_eq=0.0, contra=0.0, prefix=None, pickle_all=0.0):
+    """pickle_all: share of pickle calls that send ALL solvers of the history through one dump (what they share stays shared);
+    symv: share of solution() calls whose value is itself a symbolic expression (of the width of `e`);
     first_eq: share of FIRST constraints of a solver (none added to it or its ancestors yet) that are `variable == constant`;
     contra: share of add() calls that contradict a constraint the solver already holds SYNTACTICALLY (v == c against
     v == c' / v != c, c against Not(c)), alone or - more often - in one call together with a constraint over other variables;
@@ -247,7 +248,7 @@ def gen_history(rng, length, calpha=CONSTRAINTS, ealpha=EXPRS, balpha=BOOLS, uni
     if threads:
         # thread hand-off: the same history, each call tagged with the thread that makes it (runs of calls per thread)
         hist, t = gen_history(rng, length, calpha, ealpha, balpha, uni, max_solvers, weights, replace=replace, replace_any=replace_any,
-                              symv=symv, first_eq=first_eq, contra=contra, prefix=prefix), 0
+                              symv=symv, first_eq=first_eq, contra=contra, prefix=prefix, pickle_all=pickle_all), 0
         for d in hist:
             if rng.random() < 0.3:
                 t = rng.randrange(threads + 1)
@@ -352,6 +353,8 @@ def gen_history(rng, length, calpha=CONSTRAINTS, ealpha=EXPRS, balpha=BOOLS, uni
         elif op == "unsat_core":
             d["extra"] = []
         elif op == "pickle":
+            if pickle_all and rng.random() < pickle_all:
+                d["all"] = True       # all solvers of the history in one dump (oracle-only streams)
             # what a restored solver says first is often the plain satisfiability question
             if rng.random() < 0.5:
                 hist.append(d)
@@ -1054,7 +1057,11 @@ def apply_op(uni, solvers, d):
             return ("ok", tuple(s.unsat_core(extra_constraints=ex)))
         if op == "pickle":
             import pickle
-            solvers[d["s"]] = pickle.loads(pickle.dumps(s, -1))
+            if d.get("all"):
+                # the whole tuple in ONE dump: solvers that share parts (branches of a composite share children) come back sharing them
+                solvers[:] = pickle.loads(pickle.dumps(list(solvers), -1))
+            else:
+                solvers[d["s"]] = pickle.loads(pickle.dumps(s, -1))
             return ("ok", None)
         if op == "split":
             parts = s.split()
@@ -1506,7 +1513,7 @@ def signature(prop, cls, cfg, hist, idx, kind):
         preds.append("extra")
     if isinstance(d.get("v"), str):
         preds.append("symbolic-v")
-    prior = set(q["op"] for q in hist[:idx] if q["s"] == d["s"] or q["op"] == "branch")
+    prior = set(q["op"] for q in hist[:idx] if q["s"] == d["s"] or q["op"] == "branch" or q.get("all"))
     for p in ("eval", "batch_eval", "min", "max", "solution", "simplify", "branch", "downsize", "pickle"):
         if p in prior:
             preds.append("after-" + p)
